@@ -24,6 +24,7 @@ struct nni_taskq {
 	nni_cv         tq_wait_cv;
 	nni_taskq_thr *tq_threads;
 	int            tq_nthreads;
+	int            tq_busy; // threads that are running a callback
 	bool           tq_run;
 };
 
@@ -43,6 +44,7 @@ nni_taskq_thread(void *self)
 		if ((task = nni_list_first(&tq->tq_tasks)) != NULL) {
 
 			nni_list_remove(&tq->tq_tasks, task);
+			tq->tq_busy++;
 
 			nni_mtx_unlock(&tq->tq_mtx);
 
@@ -65,6 +67,7 @@ nni_taskq_thread(void *self)
 			NNI_VERIF_EV(NNI_VE_TASK_DONE, task, 0, 0);
 
 			nni_mtx_lock(&tq->tq_mtx);
+			tq->tq_busy--;
 
 			continue;
 		}
@@ -147,7 +150,10 @@ nni_taskq_drain(nni_taskq *tq)
 		return (false);
 	}
 	nni_mtx_lock(&tq->tq_mtx);
-	while (!nni_list_empty(&tq->tq_tasks)) {
+	// A callback that is still running can dispatch, start or reap
+	// something: the queue is only drained when nothing is queued and
+	// no thread is inside a callback.  (Idle threads wake tq_wait_cv.)
+	while ((!nni_list_empty(&tq->tq_tasks)) || (tq->tq_busy != 0)) {
 		result = true;
 		nni_cv_wait(&tq->tq_wait_cv);
 	}
